@@ -152,15 +152,23 @@ package hashgraph
 
 //@ func (h *Hashgraph) witness(x string) (bool, error)
 //@   trusted memoising wrapper around _witness (covered under C03); here only its frame is used
-//@   modifies nothing
+//@   modifies anyghost common.m, G_miss(h.Store)
+
+//@ func (h *Hashgraph) round(x string) (int, error)
+//@   trusted memoising wrapper around _round (covered under C03); here only its frame is used
+//@   modifies anyghost common.m, G_miss(h.Store)
+
+//@ func (h *Hashgraph) lamportTimestamp(x string) (int, error)
+//@   trusted memoising wrapper around _lamportTimestamp (covered under C03); here only its frame is used
+//@   modifies anyghost common.m, G_miss(h.Store)
 
 //@ func (h *Hashgraph) updateAncestorFirstDescendant(event *Event) error
 //@   requires h != nil && event != nil && event.lastAncestors != nil
-//@   modifies G_events(h.Store), G_fault(h.Store), G_miss(h.Store), anymap CoordinatesMap
+//@   modifies G_events(h.Store), G_fault(h.Store), G_miss(h.Store), anymap CoordinatesMap, anyghost common.m
 //@   ensures[view]  __eq(G_events(h.Store), old(G_events(h.Store))) && __eq(G_last(h.Store), old(G_last(h.Store))) && __eq(G_lastIdx(h.Store), old(G_lastIdx(h.Store)))
 //@   ensures[fault] ret0 != nil ==> G_fault(h.Store)
-//@   loop 1 modifies G_events(h.Store), G_fault(h.Store), G_miss(h.Store), anymap CoordinatesMap
-//@   loop 2 modifies G_events(h.Store), G_fault(h.Store), G_miss(h.Store), anymap CoordinatesMap
+//@   loop 1 modifies G_events(h.Store), G_fault(h.Store), G_miss(h.Store), anymap CoordinatesMap, anyghost common.m
+//@   loop 2 modifies G_events(h.Store), G_fault(h.Store), G_miss(h.Store), anymap CoordinatesMap, anyghost common.m
 //@   loop 1 invariant[view] __eq(G_events(h.Store), old(G_events(h.Store))) && __eq(G_last(h.Store), old(G_last(h.Store))) && __eq(G_lastIdx(h.Store), old(G_lastIdx(h.Store))) && (old(G_fault(h.Store)) ==> G_fault(h.Store))
 //@   loop 2 invariant[view] __eq(G_events(h.Store), old(G_events(h.Store))) && __eq(G_last(h.Store), old(G_last(h.Store))) && __eq(G_lastIdx(h.Store), old(G_lastIdx(h.Store))) && (old(G_fault(h.Store)) ==> G_fault(h.Store))
 
@@ -328,3 +336,90 @@ package hashgraph
 //@   modifies nothing
 //@   ensures[signed] err == nil ==> bs.Index == b.Body.Index && keys.SignedBy(privKey, HBlock(b.Body), bs.Signature)
 //@ import "crypto/ecdsa"
+
+// ------------------------------------------------------------------------------------------------
+// Round information (C01, C02, C18)
+
+//@ func (r *RoundInfo) FamousWitnesses() []string
+//@   requires r != nil
+//@   modifies nothing
+//@   ensures[enum] __enum(ret0, r.CreatedEvents, func(x string) bool { return r.CreatedEvents[x].Witness && r.CreatedEvents[x].Famous == common.True })
+//@   loop 1 invariant[enum] !(res == nil) && __enum(res, __visset(), func(x string) bool { return __in(x, r.CreatedEvents) && r.CreatedEvents[x].Witness && r.CreatedEvents[x].Famous == common.True })
+
+//@ func (r *RoundInfo) Witnesses() []string
+//@   requires r != nil
+//@   modifies nothing
+//@   ensures[enum] __enum(ret0, r.CreatedEvents, func(x string) bool { return r.CreatedEvents[x].Witness })
+//@   loop 1 invariant[enum] !(res == nil) && __enum(res, __visset(), func(x string) bool { return __in(x, r.CreatedEvents) && r.CreatedEvents[x].Witness })
+
+//@ ghost field Store rounds gmap[int, *RoundInfo]
+//@ ghost field Store frames gmap[int, *Frame]
+
+//@ iface func (s Store) GetRound(roundIndex int) (*RoundInfo, error)
+//@   modifies nothing
+//@   ensures[hit] ret1 == nil ==> ret0 != nil && __in(roundIndex, G_rounds(s)) && ret0 == G_rounds(s)[roundIndex] && ret0.CreatedEvents != nil
+//@   ensures[err] ret1 != nil ==> ret0 == nil
+
+//@ iface func (s Store) GetFrame(roundReceived int) (*Frame, error)
+//@   modifies nothing
+//@   ensures[hit]  ret1 == nil ==> ret0 != nil && __in(roundReceived, G_frames(s)) && ret0 == G_frames(s)[roundReceived]
+//@   ensures[miss] common.IsStore(ret1, common.KeyNotFound) ==> !__in(roundReceived, G_frames(s))
+//@   ensures[err]  ret1 != nil ==> ret0 == nil
+
+//@ iface func (s Store) SetFrame(frame *Frame) error
+//@   requires frame != nil
+//@   modifies G_frames(s), G_fault(s)
+//@   ensures[set] ret0 == nil ==> __eq(G_frames(s), __upd(old(G_frames(s)), frame.Round, frame))
+
+//@ iface func (s Store) FirstRound(participantID uint32) (int, bool)
+//@   modifies nothing
+
+//@ iface func (s Store) LastConsensusEventFrom(participant string) (string, error)
+//@   modifies nothing
+
+//@ iface func (s Store) GetAllPeerSets() (map[int][]*peers.Peer, error)
+//@   modifies nothing
+
+//@ func (h *Hashgraph) createRoot(participant string, head string) (*Root, error)
+//@   trusted not verified (builds the root of fixed depth for a participant; C13 material); only its frame is used
+//@   requires h != nil
+//@   modifies anyghost common.m, G_miss(h.Store)
+//@   ensures[fresh] ret1 == nil ==> ret0 != nil
+
+//@ func (h *Hashgraph) createFrameEvent(x string) (*FrameEvent, error)
+//@   requires h != nil
+//@   modifies anyghost common.m, G_miss(h.Store)
+//@   ensures[core] ret1 == nil ==> ret0 != nil && __fresh(ret0) && ret0.Core != nil && ret0.Core == G_events(h.Store)[x] && __in(x, G_events(h.Store))
+
+// FW: x is a famous witness recorded in round-info r.
+//@ ghost func FW(r *RoundInfo, x string) bool { return __in(x, r.CreatedEvents) && r.CreatedEvents[x].Witness && r.CreatedEvents[x].Famous == common.True }
+
+//@ func (h *Hashgraph) GetFrame(roundReceived int) (*Frame, error)
+//@   requires h != nil
+//@   modifies anyghost common.m, G_frames(h.Store), G_fault(h.Store), G_miss(h.Store)
+//@   ensures[stored-or-computed] ret1 == nil ==> ret0 != nil && (__called("SetFrame") || ret0 == old(G_frames(h.Store))[roundReceived])
+//@   ensures[timestamp] ret1 == nil && __called("SetFrame") ==> common.IsMedianOf(timestamps, ret0.Timestamp)
+//@   ensures[famous]    ret1 == nil && __called("SetFrame") ==> (exists fw []string :: __enum(fw, round.CreatedEvents, func(x string) bool { return FW(round, x) }) && len(timestamps) == len(fw) && (forall k int :: 0 <= k && k < len(fw) ==> __in(fw[k], G_events(h.Store)) && timestamps[k] == G_events(h.Store)[fw[k]].Body.Timestamp))
+//@   ensures[round]     ret1 == nil && __called("SetFrame") ==> round == G_rounds(h.Store)[roundReceived] && ret0.Round == roundReceived
+//@   loop 1 modifies anyghost common.m, G_miss(h.Store)
+//@   loop 2 modifies anyghost common.m, G_miss(h.Store), roots[*]
+//@   loop 3 modifies anyghost common.m, G_miss(h.Store), roots[*]
+//@   loop 4 modifies G_miss(h.Store)
+//@   loop 1 invariant[cores] !(events == nil) && (forall k int :: 0 <= k && k < len(events) ==> events[k] != nil && events[k].Core != nil)
+//@   loop 2 invariant[cores] forall k int :: 0 <= k && k < len(events) ==> events[k] != nil && events[k].Core != nil
+//@   loop 4 invariant[ts] !(timestamps == nil) && len(timestamps) == __idx() && (forall k int :: 0 <= k && k < __idx() ==> __in(__ranged([]string(nil))[k], G_events(h.Store)) && timestamps[k] == G_events(h.Store)[__ranged([]string(nil))[k]].Body.Timestamp)
+
+// ------------------------------------------------------------------------------------------------
+// Blocks from frames (C04, C05, C18)
+
+//@ func NewBlockFromFrame(blockIndex int, frame *Frame) (*Block, error)
+//@   requires frame != nil && len(frame.Peers) < 2147483648 && (forall i int :: 0 <= i && i < len(frame.Peers) ==> frame.Peers[i] != nil)
+//@   requires forall k int :: 0 <= k && k < len(frame.Events) ==> frame.Events[k] != nil && frame.Events[k].Core != nil
+//@   modifies nothing
+//@   ensures[header]  ret1 == nil ==> ret0 != nil && __fresh(ret0) && ret0.Body.Index == blockIndex && ret0.Body.RoundReceived == frame.Round && ret0.Body.Timestamp == frame.Timestamp && __seqeq(ret0.Body.FrameHash, FrameHashOf(*frame)) && __seqeq(ret0.Body.PeersHash, peers.PSHashOf(frame.Peers)) && ret0.Signatures != nil && len(ret0.Signatures) == 0 && len(ret0.Body.StateHash) == 0
+//@   ensures[payload] ret1 == nil ==> len(ret0.Body.Transactions) == __sumseq(frame.Events, len(frame.Events), func(e *FrameEvent) int { return len(e.Core.Body.Transactions) }) && (forall k int, j int :: 0 <= k && k < len(frame.Events) && 0 <= j && j < len(frame.Events[k].Core.Body.Transactions) ==> __seqeq(ret0.Body.Transactions[__sumseq(frame.Events, k, func(e *FrameEvent) int { return len(e.Core.Body.Transactions) }) + j], frame.Events[k].Core.Body.Transactions[j]))
+//@   ensures[itxs]    ret1 == nil ==> len(ret0.Body.InternalTransactions) == __sumseq(frame.Events, len(frame.Events), func(e *FrameEvent) int { return len(e.Core.Body.InternalTransactions) }) && (forall k int, j int :: 0 <= k && k < len(frame.Events) && 0 <= j && j < len(frame.Events[k].Core.Body.InternalTransactions) ==> __eq(ret0.Body.InternalTransactions[__sumseq(frame.Events, k, func(e *FrameEvent) int { return len(e.Core.Body.InternalTransactions) }) + j], frame.Events[k].Core.Body.InternalTransactions[j]))
+//@   loop 1 invariant[txbound]  forall k int :: 0 <= k && k < __idx() ==> 0 <= __sumseq(frame.Events, k, func(e *FrameEvent) int { return len(e.Core.Body.Transactions) }) && __sumseq(frame.Events, k, func(e *FrameEvent) int { return len(e.Core.Body.Transactions) }) + len(frame.Events[k].Core.Body.Transactions) <= len(transactions)
+//@   loop 1 invariant[itxbound] forall k int :: 0 <= k && k < __idx() ==> 0 <= __sumseq(frame.Events, k, func(e *FrameEvent) int { return len(e.Core.Body.InternalTransactions) }) && __sumseq(frame.Events, k, func(e *FrameEvent) int { return len(e.Core.Body.InternalTransactions) }) + len(frame.Events[k].Core.Body.InternalTransactions) <= len(internalTransactions)
+//@   loop 1 invariant[txs]  !(transactions == nil) && len(transactions) == __sumseq(frame.Events, __idx(), func(e *FrameEvent) int { return len(e.Core.Body.Transactions) }) && (forall k int, j int :: 0 <= k && k < __idx() && 0 <= j && j < len(frame.Events[k].Core.Body.Transactions) ==> __seqeq(transactions[__sumseq(frame.Events, k, func(e *FrameEvent) int { return len(e.Core.Body.Transactions) }) + j], frame.Events[k].Core.Body.Transactions[j]))
+//@   loop 1 invariant[itxs] !(internalTransactions == nil) && len(internalTransactions) == __sumseq(frame.Events, __idx(), func(e *FrameEvent) int { return len(e.Core.Body.InternalTransactions) }) && (forall k int, j int :: 0 <= k && k < __idx() && 0 <= j && j < len(frame.Events[k].Core.Body.InternalTransactions) ==> __eq(internalTransactions[__sumseq(frame.Events, k, func(e *FrameEvent) int { return len(e.Core.Body.InternalTransactions) }) + j], frame.Events[k].Core.Body.InternalTransactions[j]))
